@@ -162,6 +162,10 @@ pub fn cli(run: &dyn Fn(&Cfg) -> Option<Report>, replay_fn: &dyn Fn(&Cfg, &Value
     }
     let t0 = std::time::Instant::now();
     let rep = if let Some(path) = replay {
+        // key generation for the TLS identities is not part of any case: do it before the watchdog starts counting
+        if !cfg!(miri) && ["C01", "C02", "C03", "C04", "C05", "C06", "C07", "C10", "C11", "C12", "C13", "C17", "C20"].contains(&cfg.prop.as_str()) {
+            tls::prewarm(["C01", "C03", "C04"].contains(&cfg.prop.as_str()));
+        }
         // the replayed case runs on this thread: put it under the CPU watchdog and the death recorder
         if !cfg!(miri) {
             mon::register_thread(0);
